@@ -1401,8 +1401,35 @@ fn pretty_scalar(n: Number) -> Markup {
     m::value(n.pretty_print())
 }
 
+/// Calls that are rendered in their sugar form (`x °C`, `x -> °C`) instead of `name(x)`
+fn is_rendered_as_temperature_sugar(expr: &Expression) -> bool {
+    const SUGAR_NAMES: &[&str] = &[
+        "from_celsius",
+        "from_fahrenheit",
+        "°C",
+        "celsius",
+        "degree_celsius",
+        "°F",
+        "fahrenheit",
+        "degree_fahrenheit",
+    ];
+    match expr {
+        Expression::FunctionCall { name, args, .. } => {
+            args.len() == 1 && SUGAR_NAMES.contains(name)
+        }
+        Expression::CallableCall { callable, args, .. } => {
+            args.len() == 1
+                && matches!(callable.as_ref(), Expression::Identifier { name, .. } if SUGAR_NAMES[2..].contains(name))
+        }
+        _ => false,
+    }
+}
+
 fn with_parens(expr: &Expression) -> Markup {
     match expr {
+        _ if is_rendered_as_temperature_sugar(expr) => {
+            m::operator("(") + expr.pretty_print() + m::operator(")")
+        }
         Expression::Scalar { .. }
         | Expression::Identifier { .. }
         | Expression::UnitIdentifier { .. }
